@@ -2,7 +2,8 @@
      CSV  <data|cls|reg> <d|f> <F|L> <nout> <sep> <comment> <maxBatch> <s|f> <hex>
      SCL  <i|u|f|d> <sep> <comment> <maxBatch> [<s|f>] <hex>
      SVM  <cls|reg> <d|f> <v|c> <highestIndex> <batchSize> <s|f> <hex>
-     XCSV <data|cls|reg> <d|f> <F|L> <nout> <sep> <maxBatch> <s|f> <rows>     rows: lab|tok,tok;...
+     XCSV <data|cls|reg> <d|f> <F|L> <nout> <sep> <maxBatch> <s|f|S|F> <rows> rows: lab|tok,tok;...   S|F: crlf (C19Lines) applied to the exported text
+     XINT <i|u> <sep> <maxBatch> <s|f> <rows>                                 rows: |int,int;...   export_data of integer tokens, read back by csv_import_data and csv_import_ints/uints
      XSVM <cls|reg> <v|c> <batchSize> <rows>                                   rows: lab|val,val;...  (decimal doubles)
    XSVM: the element stores every component (v, dense) or its non-zeros (c, compressed); a double becomes the token
    operator<< prints with the default precision (printf "%g"), the model exports and re-imports the tokens.
@@ -124,7 +125,19 @@ let run toks =
     else
       twice pre_sreg (fun t -> outcome (fun d -> show ~dimstr:(dim_of d) ~cls:"-" (fun l -> hexf (rnd (float_of_num l))) (sparse rnd) d) (svm_import_reg_into t comp hi bs bytes))
       ^ " coded=" ^ cl (svm_import_reg_coded_N comp hi bs bytes)
-  | "XCSV" :: variant :: prec :: lp :: nout :: sep :: mb :: _ :: rows :: _ ->
+  | "XINT" :: ty :: sep :: mb :: _ :: rows :: _ ->
+    let sepb = n_of_int (int_of_string sep land 255) and mb = n_of_dec mb in
+    let recs = List.map (fun r -> match String.split_on_char '|' r with
+        | [_; v] -> List.map parse_tok (split ',' v)
+        | _ -> failwith "bad row") (split ';' rows) in
+    let text = export_data sepb recs in
+    let sh p d = show ~dimstr:"-" ~cls:"-" (fun () -> "") p d in
+    let ints = (fun z -> hexf (float_of_int (int_of_z z))) in
+    "XI text=" ^ hex (string_of_bytes text) ^ " ## " ^
+    csv_line "data" (fun x -> x) true O sepb hash mb text ^ " ## " ^
+    (if ty = "i" then twice pre_ints (fun t -> outcome (sh ints) (csv_import_ints_into t hash mb text))
+     else twice pre_uints (fun t -> outcome (sh ints) (csv_import_uints_into t hash mb text)))
+  | "XCSV" :: variant :: prec :: lp :: nout :: sep :: mb :: src :: rows :: _ ->
     let rnd = if prec = "f" then single else (fun x -> x) in
     let sepb = n_of_int (int_of_string sep land 255) and first = (lp = "F") in
     let recs = List.map (fun r -> match String.split_on_char '|' r with
@@ -134,6 +147,7 @@ let run toks =
       | "data" -> export_data sepb (List.map snd recs)
       | "cls" -> export_cls first sepb (List.map (fun (l, v) -> (n_of_int (int_of_string (List.hd l)), v)) recs)
       | _ -> export_reg first sepb (List.map (fun (l, v) -> (List.map parse_tok l, v)) recs) in
+    let text = if src = "S" || src = "F" then crlf text else text in
     "X text=" ^ hex (string_of_bytes text) ^ " " ^
     csv_line variant rnd first (nat_of_int (int_of_string nout)) sepb (n_of_int 35) (n_of_dec mb) text
   | "XSVM" :: variant :: store :: bs :: rows :: _ ->
